@@ -52,6 +52,8 @@ def run_one(m, tier, runs, workers, seed):
         r = subprocess.run([os.path.join(HERE, "check"), m["property"], tier], env=env, capture_output=True, text=True, timeout=3600)
         lines = [l for l in r.stdout.splitlines() if l.startswith("VIOLATION") or l.startswith("  oracle=") or l.startswith("HARNESS")]
         status = {0: "MISSED", 1: "CAUGHT", 2: "HARNESS-ERROR"}.get(r.returncode, "rc=%d" % r.returncode)
+        if m.get("expect") == "missed":
+            status = {"MISSED": "QUIET-OK", "CAUGHT": "FALSE-ALARM"}.get(status, status)
         return m, status, "%.0fs %s" % (time.time() - t, " | ".join(lines[:3])[:400])
     finally:
         shutil.rmtree(tmp, ignore_errors=True)
@@ -76,7 +78,7 @@ def main(argv):
         for m, status, info in ex.map(lambda m: run_one(m, tier, runs, workers, seed), ms):
             print("%-14s %-4s %-28s %s" % (status, m["property"], m["id"], info), flush=True)
             res.append((m["id"], status))
-    missed = [i for i, s in res if s != "CAUGHT"]
+    missed = [i for i, s in res if s not in ("CAUGHT", "QUIET-OK")]
     print("caught %d of %d; not caught: %s" % (len(res) - len(missed), len(res), missed))
     return 1 if missed else 0
 
